@@ -20,7 +20,7 @@ META = {
                    "formulas are what is checked), setter -> getter round trips on real modules, rejection of out-of-bounds "
                    "assignments (both sides witnessed), prior log_prob = reference density evaluated at the constrained value, "
                    "sample_from_prior stores what it sampled.",
-    "bounds": {"quick": "scalar and 2-element tensor bounds; 25 setter targets (default and user-supplied constraint); 8 prior classes; LKJ correlation / covariance priors n <= 3", "thorough": "same + batch-shaped parameters"},
+    "bounds": {"quick": "scalar and 2-element tensor bounds; inverse transforms given explicitly, by default and looked up in TRANSFORM_REGISTRY (inv_transform=None); 25 setter targets (default and user-supplied constraint); 8 prior classes; LKJ correlation / covariance priors n <= 3", "thorough": "same + batch-shaped parameters"},
     "outside": ["floating-point saturation at extreme raw values (closed-interval end points, overflow of exp): reals only",
                 "the LKJ normalising constant c_n(eta) itself (taken from torch's LKJCholesky at C = I, where the Cholesky Jacobian is 1; n=3, eta=1 was compared with 2/pi^2 by hand)", "claims that a density integrates to one"],
     "assumptions": ["reals for floats", "softplus evaluated below its linear threshold (20)", "lower < upper", "LKJ: the eigenvalue-based input validation is replaced by its contract (a positive definite matrix with unit diagonal)"],
